@@ -123,6 +123,41 @@ def mkCluster (conf : List SubSt) (retryMax crossRetry : Int) (algo : Algo) : Op
   | none => none
   | some g => some { subs := C02.isort (·.name) conf, g := g, retryMax := retryMax, crossRetry := crossRetry, algo := algo }
 
+/-! ### `BalanceGslb.Reload` -/
+
+/-- the Go map `gslb_conf.GslbClusterConf` as an association list (keys distinct) -/
+abbrev GConf := List (String × Int)
+
+def lookupW (conf : GConf) (n : String) : Option Int := (conf.find? (·.1 == n)).map (·.2)
+
+/-- first loop of `Reload`: existing sub-clusters found in the new conf, in their old order, re-weighted -/
+def kept (subs : List SubSt) (conf : GConf) : List SubSt :=
+  subs.filterMap fun s => (lookupW conf s.name).map fun w => { s with w := w }
+
+/-- second loop: sub-clusters of the conf that did not exist, created without backends
+    (Go iterates the map in arbitrary order; the list is sorted right afterwards) -/
+def added (subs : List SubSt) (conf : GConf) : List SubSt :=
+  (conf.filter fun p => !(subs.any fun s => s.name == p.1)).map fun p => { name := p.1, w := p.2, bs := [] }
+
+def toSubs (l : List SubSt) : List C02.Sub := l.map fun s => { name := s.name, w := s.w }
+
+/-- `Reload`: sort FIRST, then totalWeight / availableNum / lastAvailIndex over the sorted list.
+    `false` = error return ("gslb total weight = 0"): `bal.subClusters`, totalWeight, single, avail are left
+    alone, but the weights of the surviving sub-cluster objects have already been overwritten. -/
+def reload (c : Cl) (conf : GConf) : Cl × Bool :=
+  let l := C02.isort (·.name) (kept c.subs conf ++ added c.subs conf)
+  let total := ((C02.posW (toSubs l)).map (·.w)).sum
+  if total = 0 then
+    let subs' := c.subs.map fun s => match lookupW conf s.name with
+      | some w => { s with w := w }
+      | none => s
+    ({ c with subs := subs', g := { c.g with subs := toSubs subs' } }, false)
+  else
+    let single := (C02.posW (toSubs l)).length == 1
+    ({ c with subs := l
+              g := { subs := toSubs l, total := total, single := single
+                     avail := if single then C02.lastPos (toSubs l) 0 0 else c.g.avail } }, true)
+
 def hasElig (s : SubSt) : Bool := s.bs.any elig
 
 end BfeVerif.C03
